@@ -3,6 +3,8 @@
 N=$1; shift
 cd /repo && git status --short | grep -q . && { echo "/repo not clean"; exit 2; }
 git -C /repo apply /verif/seeded/$N/patch.diff || exit 2
+# evidence of runs on a seeded tree must not replace the committed evidence of the unchanged tree
+export VERIF_EVIDENCE_DIR=/verif/build/evidence-seeds; mkdir -p $VERIF_EVIDENCE_DIR
 for C in "$@"; do
   echo "== $N vs $C"
   (cd /verif && timeout 1500 ./check $C ${SEED_ARGS:-} 2>&1 | grep -E "VIOLATION|INCONCLUSIVE|KNOWN|^C[0-9]+:" | head -6; echo "exit=${PIPESTATUS[0]}")
